@@ -1031,7 +1031,9 @@ class AstEval:
         else:
             for arg1 in arg.orelse:
                 val = await self.aeval(arg1)
-                if isinstance(val, EvalReturn):
+                if isinstance(val, EvalStopFlow):
+                    # return leaves the function; break/continue in a loop's
+                    # else clause belong to the enclosing loop
                     return val
         return None
 
@@ -1053,7 +1055,9 @@ class AstEval:
         else:
             for arg1 in arg.orelse:
                 val = await self.aeval(arg1)
-                if isinstance(val, EvalReturn):
+                if isinstance(val, EvalStopFlow):
+                    # return leaves the function; break/continue in a loop's
+                    # else clause belong to the enclosing loop
                     return val
         return None
 
